@@ -192,7 +192,13 @@ func runEnc(prop string, seed uint64, tier, dir string) error {
 		if (prop == "C13" || prop == "C06") && rng.Intn(8) == 0 {
 			which = 98 // a value of a record kind of package protocol (IGMP, DHCP, LLDP, 802.1Q tag, IPv6 option)
 		}
+		if which < 5 && rng.Intn(12) == 0 {
+			which = 97 // a hello whose element list was assigned by hand
+		}
 		switch {
+		case which == 97:
+			h, t, xid := g.helloElems()
+			v, term, kind = h, fmt.Sprintf("(EHello %d %s)", xid, t), "msg:hello/elements"
 		case which == 98:
 			ks := recKinds
 			if prop == "C06" { // the TLVs have no Len method
